@@ -1531,6 +1531,10 @@ Error Assembler::_emit(InstId inst_id, const Operand_& o0, const Operand_& o1, c
           goto InvalidInstruction;
         }
 
+        // CMN|CMP (extended register) - Rn is SP (31), ZR is not allowed.
+        if (!check_gp_id(o0, kSP))
+          goto InvalidPhysId;
+
         opcode.reset(uint32_t(op_data.extended_op) << 21);
         opcode.add_imm(x, 31);
         opcode.add_reg(o1, 16);
